@@ -253,64 +253,84 @@ fn erase_decimals(s: &str) -> String {
     out
 }
 
-/// A scaling run: the same amplified input with a quarter, a half and all of its generated
-/// items, in this order and in one process.  "Time proportional to the input" means the last
-/// costs about four times the first; sixteen times is quadratic.  The verdict needs a
-/// measurable full-size run (>= 100 ms of CPU) and a ratio above 10; the driver confirms it by
-/// two more isolated executions.  The result reported is that of the full-size run.
+/// A scaling run: the same amplified input at growing numbers of generated items, in one
+/// process.  The input is first run as the site defines it, then with 2, 4 and 8 times its
+/// generated items for as long as a run stays below one second of CPU (and 48 MB of generated
+/// bytes), so that a term that grows faster than linearly has room to dominate; the largest
+/// size reached is then compared with a quarter of it.  "Time proportional to the input" means
+/// a ratio of about 4; 16 is quadratic.  The verdict needs a measurable large run (>= 100 ms of
+/// CPU) and a ratio above 10 (honest code reaches 8.4 on this corpus); the driver confirms it by
+/// two more isolated executions.  A budget verdict at one of the sizes is reported as it is,
+/// with the scaled input as its replay.
 fn exec_scaling(ctx: &mut Ctx, spec: &RunSpec, idx: u64) -> RunResult {
-    let mut times: Vec<i64> = Vec::new();
-    let mut last = RunResult::default();
-    for div in [4u32, 2, 1] {
+    let scaled = |num: u32, den: u32| -> RunSpec {
         let mut s = spec.clone();
-        s.note = format!("scaled 1/{}", div);
+        s.note = format!("scaled x{}/{}", num, den);
         for f in s.stored_faults.iter_mut() {
             if let Some(Edit::Repeat { count, start, step, .. }) = f.edit.as_mut() {
                 if *count >= 8000 {
+                    let n = ((*count as u64 * num as u64) / den as u64).min(u32::MAX as u64) as u32;
                     // descending counters start at the number of items
                     if *step < 0 && *start == *count as i64 {
-                        *start = (*count / div) as i64;
+                        *start = n as i64;
                     }
-                    *count /= div;
+                    *count = n;
                 }
             }
         }
+        s
+    };
+    let generated = |s: &RunSpec| -> usize { s.stored_faults.iter().filter_map(|f| f.edit.as_ref()).map(|e| e.generated()).sum() };
+    // an input that is refused after the work was done is a measurement too
+    let measurable = |r: &RunResult| r.violations.is_empty() && !r.outcome.starts_with("harness");
+    // grow
+    let mut mult = 1u32;
+    let mut large = exec_spec(ctx, &scaled(1, 1), idx);
+    if !measurable(&large) {
+        return large;
+    }
+    while (large.cpu_us as i64) < 1_000_000 && mult < 8 && generated(&scaled(mult * 2, 1)) <= 48 << 20 {
+        let s = scaled(mult * 2, 1);
         let r = exec_spec(ctx, &s, idx);
-        if !r.violations.is_empty() || !r.outcome.starts_with(&format!("{}:opened", spec.entry.name())) {
-            // not a measurement (the input does not open through this entry, or a budget verdict
-            // already covers it): report the run as it is, with the original spec
+        if !r.violations.is_empty() {
+            // a budget verdict at this size: the scaled input is the replay
             let mut r = r;
-            if r.spec.is_some() {
-                r.spec = Some(spec.clone());
-            }
+            r.spec = Some(s);
+            r.phase = "scaling".into();
             return r;
         }
-        times.push(r.cpu_us as i64);
-        last = r;
+        if !measurable(&r) {
+            break;
+        }
+        mult *= 2;
+        large = r;
     }
-    let (t1, t4) = (times[0].max(1000), times[2]);
+    let small = exec_spec(ctx, &scaled(mult, 4), idx);
+    large.phase = "scaling".into();
+    if !measurable(&small) {
+        return large;
+    }
+    let (t1, t4) = ((small.cpu_us as i64).max(1000), large.cpu_us as i64);
+    let ratio = t4 as f64 / t1 as f64;
+    let kind = spec.stored_faults.iter().rev().find(|f| matches!(&f.edit, Some(Edit::Repeat { count, .. }) if *count >= 8000)).map(|f| erase_decimals(&f.why)).unwrap_or_default();
     // how the ratios are distributed is part of the evidence (rare-condition probes)
-    last.probes.push(if t4 >= 100_000 { format!("scaling_ratio_{:02}", ((t4 as f64 / t1 as f64) as u64).min(20)) } else { "scaling_full_size_below_100ms".to_string() });
-    if t4 >= 100_000 && t4 as f64 / t1 as f64 > 10.0 {
-        let kind = spec
-            .stored_faults
-            .iter()
-            .rev()
-            .find(|f| matches!(&f.edit, Some(Edit::Repeat { count, .. }) if *count >= 8000))
-            .map(|f| erase_decimals(&f.why))
-            .unwrap_or_default();
-        last.violations.push(Violation {
+    large.probes.push(if t4 >= 100_000 { format!("scaling_ratio_{:02}", (ratio as u64).min(20)) } else { "scaling_largest_size_below_100ms".to_string() });
+    if t4 >= 100_000 && ratio >= 6.0 {
+        // the upper tail of the distribution, by flood and file (to see how close honest code comes)
+        large.probes.push(format!("scaling_tail:{:.1}:{}:{}:x{}:{}us,{}us", ratio, spec.file, kind, mult, t1, t4));
+    }
+    if t4 >= 100_000 && ratio > 10.0 {
+        large.violations.push(Violation {
             class: "superlinear".into(),
             origin: kind,
             client: String::new(),
             msg: "CPU time grows faster than the input".into(),
             op: -1,
-            detail: format!("CPU time with 1/4, 1/2 and all of the generated items: {} us, {} us, {} us (ratio {:.1}; 4 is linear, 16 quadratic)", times[0], times[1], times[2], t4 as f64 / t1 as f64),
+            detail: format!("CPU time with {}/4 and {} times the generated items of the site: {} us and {} us (ratio {:.1}; 4 is linear, 16 quadratic)", mult, mult, t1, t4, ratio),
         });
-        last.spec = Some(spec.clone());
+        large.spec = Some(spec.clone());
     }
-    last.phase = "scaling".into();
-    last
+    large
 }
 
 pub fn exec_spec(ctx: &mut Ctx, spec: &RunSpec, idx: u64) -> RunResult {
